@@ -1,5 +1,5 @@
 CONSTANTS
-  NS = 0
+  NS = 1
   Units = 1
   Lens = {1}
   Wins = {1}
@@ -9,13 +9,13 @@ CONSTANTS
   DgCap = 1
   DgReaders = 1
   DgWakeAll = TRUE
-  FinishWakes = TRUE
+  FinishWakes = FALSE
   AllowReset = FALSE
   AllowStop = FALSE
   AllowLoss = FALSE
   Extra = {}
   CloseKinds = {}
   Deviations = {}
-  Tier = "quick"
-SPECIFICATION GWSpec
-INVARIANTS Emit NoStrandedWithoutDeviation
+SPECIFICATION Spec
+INVARIANTS TypeOK InOrderExactlyOnce FinAfterLastByte FlowControl NoStrandedFutureStrict NoLostWakeup ClosedTablesEmpty ClosedNobodyPending AbsInv
+PROPERTIES ErrorAfterClose Independence AbsRefines
